@@ -11,6 +11,11 @@ def main():
     os.makedirs(os.path.join(HERE, '.work'), exist_ok=True)
     os.makedirs(os.path.join(HERE, 'out', 'replay'), exist_ok=True)
     os.makedirs(os.path.join(HERE, 'evidence'), exist_ok=True)
+    # hooks must be inert with the guard off: token-stream identity of every hooked file
+    r = subprocess.run(['python3', os.path.join(HERE, 'tools', 'check_hooks_inert.py')], capture_output=True, text=True)
+    print(r.stdout.strip())
+    if r.returncode:
+        print('hook inertness check failed'); return 1
     return 0
 if __name__ == '__main__':
     sys.exit(main())
